@@ -115,7 +115,7 @@ void run(Ctx &ctx) {
     { int k = 0; for (const char *t : SHARED_TEXTS) { if (!ctx.mine(k++)) continue; int sig; if ((sig = GUARD_ENTER()) == 0) { ra.shared_buffer(t); rw.shared_buffer(t); GUARD_LEAVE(); ctx.st.count("shared_buffer_texts"); } else ctx.violation("", Str("shared`") + t + "`0.0.0.0.A", fmt("%s while comparing ranges of one buffer", signame(sig))); } }
     // library-made objects: equality <=> identical recomposed text
     {
-        std::vector<Str> seeds = produce_seeds(ctx.secondary ? 1 : ctx.quick() ? 2 : 3), bases = { "s://h/a/b", "s:/a", "s:a/b", "s://h", "s:/" };
+        std::vector<Str> seeds = produce_seeds((ctx.secondary ? 1 : ctx.quick() ? 2 : 3) + ctx.bonus), bases = { "s://h/a/b", "s:/a", "s:a/b", "s://h", "s:/" };
         std::vector<typename Runner<char>::Made> made; std::vector<std::string> keep;
         ra.produce(made, seeds, bases, keep); lc.produced = made.size();
         for (size_t i = 0; i < made.size(); i++) {
@@ -136,7 +136,7 @@ void replay(Ctx &ctx, const Str &enc) {
     std::vector<Str> p = split(enc, '`'); if (p.size() != 3) return; Local lc;
     if (p[0] == "made") {   // re-create every library-made object and compare the two named ones
         Runner<char> r(&ctx, &lc); std::vector<typename Runner<char>::Made> made; std::vector<std::string> keep;
-        r.produce(made, produce_seeds(3), { "s://h/a/b", "s:/a", "s:a/b", "s://h", "s:/" }, keep);
+        r.produce(made, produce_seeds(3 + ctx.bonus), { "s://h/a/b", "s:/a", "s:a/b", "s://h", "s:/" }, keep);
         const typename Runner<char>::Made *a = 0, *b = 0; for (auto &m : made) { if (m.how == p[1] && !a) a = &m; if (m.how == p[2] && !b) b = &m; }
         if (a && b) { bool eq = Api<char>::EqualsUri(&a->u, &b->u) == URI_TRUE, same = a->text == b->text; if (eq != same) ctx.violation("", enc, fmt("uriEqualsUri says %s but the recomposed texts are '%s' and '%s'", eq ? "equal" : "different", a->text.c_str(), b->text.c_str())); }
         return;
